@@ -53,10 +53,11 @@ Theorem C20_verify_ranges : forall p n add lift G (sha256 : bytes -> bytes) msg 
 Proof. exact schnorr_verify_ranges. Qed.
 Print Assumptions C20_verify_ranges.
 
-(* for given R, key and message at most one s verifies: any altered s is rejected *)
+(* for given R, key and message at most one s verifies: any altered s is rejected
+   (wf_bytes pk: the lift laws of curve_laws are about non-negative integers, be_val of a byte string) *)
 Theorem C20_s_unique : forall p n add lift G on, curve_laws p n add lift G on ->
   forall (sha256 : bytes -> bytes) msg pk rb sb sb', length rb = 32%nat -> length sb = 32%nat -> length sb' = 32%nat ->
-  wf_bytes sb -> wf_bytes sb' ->
+  wf_bytes pk -> wf_bytes sb -> wf_bytes sb' ->
   schnorr_verify sha256 p n add lift G msg pk (rb ++ sb) = Some true ->
   schnorr_verify sha256 p n add lift G msg pk (rb ++ sb') = Some true -> sb = sb'.
 Proof. exact schnorr_s_unique. Qed.
